@@ -66,6 +66,10 @@ type uploader struct{ w *world }
 // refreshCtxKey carries the invoke stamp of the Refresh call to Upload.
 type refreshCtxKey struct{}
 
+// refreshCancelKey carries the function that ends the context of the Refresh
+// call.
+type refreshCancelKey struct{}
+
 func (u *uploader) Upload(ctx context.Context, records billstat.Records) (err error) {
 	w := u.w
 	s := w.s
@@ -136,6 +140,13 @@ func (u *uploader) Upload(ctx context.Context, records billstat.Records) (err er
 	}
 
 	w.checkNoOvercount("after upload")
+
+	if cancel, ok := ctx.Value(refreshCancelKey{}).(context.CancelFunc); ok && s.T.Chance(1, 8, "context-ends-as-upload-succeeds") {
+		// The backend has taken the batch; the caller's deadline passes (or
+		// the shutdown begins) at that very moment.  Delivered is delivered.
+		cancel()
+		s.Fault("context-ended-during-successful-upload")
+	}
 
 	return nil
 }
@@ -270,6 +281,8 @@ func run(s *kernel.Sim, _, cfg string) {
 			for j := 0; j < n; j++ {
 				s.Yield("before-refresh")
 				rctx := context.WithValue(ctx, refreshCtxKey{}, w.tick())
+				rctx, endCtx := context.WithCancel(rctx)
+				rctx = context.WithValue(rctx, refreshCancelKey{}, endCtx)
 				if t.Chance(1, 8, "refresh-context-done") {
 					// The caller's context is over before the refresh begins
 					// (a shutdown, an expired timeout): the upload cannot
@@ -285,6 +298,7 @@ func run(s *kernel.Sim, _, cfg string) {
 					s.Probe("refreshes-overlapped")
 				}
 				err := rec.Refresh(rctx)
+				endCtx()
 				w.inFlight--
 				s.Logf("%s: refresh err=%v", name, err)
 			}
